@@ -71,6 +71,7 @@ def build():
         return None
 
     from pyvc.values import VModule as VModule_
+    decode_ref = [None]
 
     def call(m, func, args, kwargs, node):
         if isinstance(func, VBound) and isinstance(func.recv, VU) and func.recv.sort == OPTS and func.name == "update":
@@ -80,7 +81,7 @@ def build():
             m.global_syms["OPTS"] = OPTS.wrap(upd(func.recv.term, OARG.coerce(args[0]).term))
             return NONE
         if isinstance(func, VBound) and isinstance(func.recv, VU) and func.recv.sort == PAYLOAD and func.name == "decode":
-            return PAYLOAD.fresh("decoded")
+            return PAYLOAD.wrap(decode_ref[0](func.recv.term))
         if isinstance(func, VPy) and func.obj == ("setattr",):
             obj, name, val = args
             if isinstance(obj, VCls) and obj.name == C and isinstance(name, VPy):
@@ -99,41 +100,91 @@ def build():
     world.attr_hooks.append(attr)
     world.call_hooks.append(call)
     # `or {}` in from_yaml
-    world.truth_hooks.append(lambda m, v: z3.Bool("payload_truthy_" + str(v.term)) if isinstance(v, VU) and v.sort == PAYLOAD else None)
+    world.truth_hooks.append(lambda m, v: payload_truthy_ref[0](v.term) if isinstance(v, VU) and v.sort == PAYLOAD else None)
+    payload_truthy_ref = [None]
 
+    # ---- data flow: what is serialised / parsed is a deterministic function of the object (or payload) and the two slots; codecs are functions of their input
+    ODIA = opt_of(DIA)
+    ser_result = z3.Function("serialize_result", OBJ.z3(), OPTS.z3(), ODIA.z3(), PAYLOAD.z3())
+    deser_result = z3.Function("deserialize_result", PAYLOAD.z3(), OPTS.z3(), ODIA.z3(), OBJ.z3())
+    codec = {n: z3.Function(n, PAYLOAD.z3(), PAYLOAD.z3()) for n in ("orjson_dumps", "orjson_dumps_indented", "orjson_loads", "msgpack_packb", "msgpack_unpackb", "yaml_dump", "yaml_load")}
+    payload_truthy = z3.Function("payload_truthy", PAYLOAD.z3(), z3.BoolSort())
+    decode = z3.Function("bytes_decode_utf8", PAYLOAD.z3(), PAYLOAD.z3())
+    payload_truthy_ref[0], decode_ref[0] = payload_truthy, decode
+    sfn = world.spec_fns
+    sfn.update({"serialize_result": lambda o, op, d: PAYLOAD.wrap(ser_result(o.term, op.term, ODIA.coerce(d).term)),
+                "deserialize_result": lambda p_, op, d: OBJ.wrap(deser_result(p_.term, op.term, ODIA.coerce(d).term)),
+                "payload_truthy": lambda p_: VBool(payload_truthy(p_.term)), "bytes_decode_utf8": lambda p_: PAYLOAD.wrap(decode(p_.term)),
+                **{n: (lambda f: lambda p_: PAYLOAD.wrap(f(p_.term)))(f) for n, f in codec.items()}})
+
+    def one(m, a, kw, fname):
+        return PAYLOAD.wrap(codec[fname](PAYLOAD.coerce(a[0]).term))
+
+    def orjson_dumps(m, a, kw):
+        if "option" in kw:
+            if not (isinstance(kw["option"], VPy) and kw["option"].obj == "OPT_INDENT_2"):
+                raise __import__("pyvc.values", fromlist=["EngineError"]).EngineError("orjson.dumps with another option")
+            return one(m, a, kw, "orjson_dumps_indented")
+        return one(m, a, kw, "orjson_dumps")
+
+    def yaml_dump(m, a, kw):
+        if not (isinstance(kw.get("Dumper"), VPy) and kw["Dumper"].obj == "YamlDumper"):
+            raise __import__("pyvc.values", fromlist=["EngineError"]).EngineError("yaml.dump without the C dumper alias")
+        return one(m, a, kw, "yaml_dump")
+
+    def yaml_load(m, a, kw):
+        if not (isinstance(kw.get("Loader"), VPy) and kw["Loader"].obj == "YamlLoader"):
+            raise __import__("pyvc.values", fromlist=["EngineError"]).EngineError("yaml.load without the safe loader alias")
+        return one(m, a, kw, "yaml_load")
+
+    def flagged(fname, flag, want):
+        # the codec function named in the contract is the one with this flag value (bin type on, raw off); any other call is a different function
+        def f(m, a, kw):
+            v = kw.get(flag)
+            if not (isinstance(v, VBool) and z3.is_true(z3.simplify(v.term == want))):
+                raise __import__("pyvc.values", fromlist=["EngineError"]).EngineError(f"{fname} without {flag}={want}")
+            return one(m, a, kw, fname)
+        return f
+
+    world.extern_fns = {("orjson", "dumps"): orjson_dumps, ("orjson", "loads"): lambda m, a, kw: one(m, a, kw, "orjson_loads"),
+                        ("msgpack", "packb"): flagged("msgpack_packb", "use_bin_type", True), ("msgpack", "unpackb"): flagged("msgpack_unpackb", "raw", False),
+                        ("yaml", "dump"): yaml_dump, ("yaml", "load"): yaml_load}
     G = {"OPTS": "Opts", "DIALECT": "Opt[Dialect]"}
     P = ["C16"]
     A = reg.add
     A(Contract(f"{M}:{C}._serialize", params={"self": "SerObj"}, returns="Payload", globals=G, props=P, trusted=True,
-               raises=[("Exception", "*")],
+               raises=[("Exception", "*")], ensures=["result == serialize_result(self, OPTS, DIALECT)"],
                trusted_reason="mashumaro-generated to_dict + user hooks: may raise anything; assumed not to touch the option/dialect slots"))
     A(Contract(f"{M}:{C}._deserialize", params={"cls": "py:cls", "value": "Payload"}, returns="SerObj", globals=G, props=P, trusted=True,
-               raises=[("Exception", "*")],
+               raises=[("Exception", "*")], ensures=["result == deserialize_result(value, OPTS, DIALECT)"],
                trusted_reason="mashumaro-generated from_dict + user hooks: may raise anything; assumed not to touch the option/dialect slots"))
-    common = dict(globals=G, props=P, requires=["idle(OPTS, DIALECT)"], ensures=["idle(OPTS, DIALECT)"],
+    common = dict(globals=G, props=P, requires=["idle(OPTS, DIALECT)"],
                   exc_ensures=["idle(OPTS, DIALECT)"], may_raise=["Exception"],
                   locals={".__serialization_options": "const:EMPTY_OPTS"})
     A(Contract(f"{M}:{C}.as_dict", params={"self": "SerObj", "mashumaro_dialect": "Opt[Dialect]", "serialization_options": "Opt[OptsArg]"},
-               returns="Payload",
+               returns="Payload", ensures=["idle(OPTS, DIALECT)", "result == serialize_result(self, given(serialization_options), mashumaro_dialect)"],
                call_requires={f"{M}:{C}._serialize": ["OPTS == given(serialization_options)", "DIALECT == mashumaro_dialect"]}, **common))
     A(Contract(f"{M}:{C}.as_obj", params={"cls": "py:cls", "value": "Payload", "mashumaro_dialect": "Opt[Dialect]", "serialization_options": "Opt[OptsArg]"},
-               returns="SerObj",
+               returns="SerObj", ensures=["idle(OPTS, DIALECT)", "result == deserialize_result(value, given(serialization_options), mashumaro_dialect)"],
                call_requires={f"{M}:{C}._deserialize": ["OPTS == given(serialization_options)", "DIALECT == mashumaro_dialect"]}, **common))
     # the six format front-ends: they hand the options to as_dict / as_obj unchanged, with the format's dialect
-    def front(name, params, callee, dialect):
+    def front(name, params, callee, dialect, value):
         A(Contract(f"{M}:{C}.{name}", params=params, returns="Payload" if name.startswith("to_") else "SerObj",
-                   globals=G, props=P, requires=["idle(OPTS, DIALECT)"], ensures=["idle(OPTS, DIALECT)"],
+                   globals=G, props=P, requires=["idle(OPTS, DIALECT)"], ensures=["idle(OPTS, DIALECT)", f"result == {value}"],
                    exc_ensures=["idle(OPTS, DIALECT)"], may_raise=["Exception"],
                    call_requires={f"{M}:{C}.{callee}": [f"arg_mashumaro_dialect == {dialect}", "arg_serialization_options == serialization_options"]}))
     so = {"serialization_options": "Opt[OptsArg]"}
-    front("to_jsonb", {"self": "SerObj", "indent": "bool", **so}, "as_dict", "OrjsonDialect")
-    front("to_msgpck", {"self": "SerObj", **so}, "as_dict", "MessagePackDialect")
-    front("to_yaml", {"self": "SerObj", "mashumaro_dialect": "Opt[Dialect]", **so}, "as_dict", "mashumaro_dialect")
-    front("from_json", {"cls": "py:cls", "value": "Payload", **so}, "as_obj", "OrjsonDialect")
-    front("from_msgpck", {"cls": "py:cls", "value": "Payload", **so}, "as_obj", "MessagePackDialect")
-    front("from_yaml", {"cls": "py:cls", "value": "Payload", "mashumaro_dialect": "Opt[Dialect]", **so}, "as_obj", "mashumaro_dialect")
+    front("to_jsonb", {"self": "SerObj", "indent": "bool", **so}, "as_dict", "OrjsonDialect",
+          "(orjson_dumps_indented(serialize_result(self, given(serialization_options), OrjsonDialect)) if indent else orjson_dumps(serialize_result(self, given(serialization_options), OrjsonDialect)))")
+    front("to_msgpck", {"self": "SerObj", **so}, "as_dict", "MessagePackDialect", "msgpack_packb(serialize_result(self, given(serialization_options), MessagePackDialect))")
+    front("to_yaml", {"self": "SerObj", "mashumaro_dialect": "Opt[Dialect]", **so}, "as_dict", "mashumaro_dialect", "yaml_dump(serialize_result(self, given(serialization_options), mashumaro_dialect))")
+    front("from_json", {"cls": "py:cls", "value": "Payload", **so}, "as_obj", "OrjsonDialect", "deserialize_result(orjson_loads(value), given(serialization_options), OrjsonDialect)")
+    front("from_msgpck", {"cls": "py:cls", "value": "Payload", **so}, "as_obj", "MessagePackDialect", "deserialize_result(msgpack_unpackb(value), given(serialization_options), MessagePackDialect)")
+    front("from_yaml", {"cls": "py:cls", "value": "Payload", "mashumaro_dialect": "Opt[Dialect]", **so}, "as_obj", "mashumaro_dialect",
+          "(deserialize_result(yaml_load(value), given(serialization_options), mashumaro_dialect) if payload_truthy(yaml_load(value)) else deserialize_result(EMPTY_DICT, given(serialization_options), mashumaro_dialect))")
     A(Contract(f"{M}:{C}.to_json", params={"self": "SerObj", "indent": "bool", **so}, returns="Payload", globals=G, props=P,
-               requires=["idle(OPTS, DIALECT)"], ensures=["idle(OPTS, DIALECT)"], exc_ensures=["idle(OPTS, DIALECT)"], may_raise=["Exception"]))
+               requires=["idle(OPTS, DIALECT)"], exc_ensures=["idle(OPTS, DIALECT)"], may_raise=["Exception"],
+               ensures=["idle(OPTS, DIALECT)", "result == bytes_decode_utf8(orjson_dumps_indented(serialize_result(self, given(serialization_options), OrjsonDialect)) if indent else orjson_dumps(serialize_result(self, given(serialization_options), OrjsonDialect)))"]))
     # the four getters return the slots themselves
     A(Contract(f"{M}:{C}._get_serialization_options", params={"self": "SerObj"}, returns="Opts", globals=G, props=P, ensures=["result == OPTS"]))
     A(Contract(f"{M}:{C}._get_deserialization_options", params={"cls": "py:cls"}, returns="Opts", globals=G, props=P, ensures=["result == OPTS"]))
